@@ -274,6 +274,14 @@ pub fn run(cfg: &Cfg, rep: &mut Report) {
             }
         }
     }
+    // vault operator path: the C05 engine under exact authorization
+    for k in 0..nh * 2 {
+        let h = 70_000 + k;
+        if cfg.runs(h) {
+            crate::props::c05::history(cfg, rep, h, steps, crate::props::c05::Mode::Auth, (k % 11) as u32);
+        }
+    }
+    rep.floor_on("vault_operator_spends", 5, &["operator_spends"]);
     let c = |k: &str| *rep.counters.get(k).unwrap_or(&0);
     let (a, b, d) = (c("spend:live=@L") + c("spend:live>@L"), c("refused_spend:expired") + c("refused_spend:expired(maybe-in-storage)"), c("ledger_moves"));
     rep.floor("spend_at_live_until", 1, a);
